@@ -61,6 +61,8 @@ def eval_nodes(roots, env):
         r = F(np.floor(flush(A[0])))
       elif op == "ceil":
         r = F(np.ceil(flush(A[0])))
+      elif op == "trunc":
+        r = F(np.trunc(flush(A[0])))
       elif op == "max":
         r = F(np.nan) if (np.isnan(A[0]) or np.isnan(A[1])) else F(max(A[0], A[1]))
       elif op == "min":
@@ -150,6 +152,7 @@ def to_z3_real(roots, var_of=None, override=None):
     elif op == "round": r = rnd(A[0])
     elif op == "floor": r = z3.ToReal(z3.ToInt(A[0]))
     elif op == "ceil": r = -z3.ToReal(z3.ToInt(-A[0]))
+    elif op == "trunc": r = z3.If(A[0] >= 0, z3.ToReal(z3.ToInt(A[0])), -z3.ToReal(z3.ToInt(-A[0])))
     elif op == "max": r = z3.If(A[0] >= A[1], A[0], A[1])
     elif op == "min": r = z3.If(A[0] <= A[1], A[0], A[1])
     elif op == "sign": r = z3.If(A[0] > 0, z3.RealVal(1), z3.If(A[0] < 0, z3.RealVal(-1), z3.RealVal(0)))
